@@ -71,6 +71,21 @@ let () =
             (match string_of_z (run_fetch cpu ((z_of_int 0x10000, z_of_int 64) :: regs) ip l) with
              | "3" -> "P;;"
              | s -> "I " ^ s)
+          | "U" ->
+            let _mem64 = next () in
+            let addr = nz () in
+            let n = int_of_string (next ()) in
+            let pat (b : ZA.t) (len : int) : z list =
+              List.init len (fun i ->
+                  let a = ZA.add b (ZA.of_int i) in
+                  if ZA.equal a (ZA.of_int 0x400000) then z_of_int 0xff
+                  else if ZA.equal a (ZA.of_int 0x400001) then z_of_int 0x23
+                  else z_of_string (ZA.to_string (ZA.logand (ZA.add (ZA.mul a (ZA.of_int 131)) (ZA.of_int 7)) (ZA.of_int 255)))) in
+            let regs = List.init n (fun _ -> let a = next () in let l = int_of_string (next ()) in (z_of_string a, pat (ZA.of_string a) l)) in
+            let all = (z_of_int 0x10000, pat (ZA.of_int 0x10000) 64) :: (z_of_int 0x400000, [z_of_int 0xff; z_of_int 0x23]) :: regs in
+            (match run_read_u64 all addr with
+             | None -> "U -"
+             | Some v -> "U " ^ string_of_z v)
           | "J" ->
             let rd () = let n = int_of_string (next ()) in
               List.init n (fun _ -> let a = nz () in let b = nz () in (a, b)) in
